@@ -508,7 +508,7 @@ func genScript(run *emit.Run, n int) []Op {
 	msgID := uint64(1 + r.Intn(50))
 	lnNext := r.Intn(1000) * 8
 	for i := 0; i < n; i++ {
-		switch k := r.Intn(23); {
+		switch k := r.Intn(25); {
 		case k < 6:
 			s = append(s, genStatus(run))
 		case k < 9:
@@ -524,6 +524,8 @@ func genScript(run *emit.Run, n int) []Op {
 			s = append(s, Op{Kind: "purge", Purge: &purgeOp{Attest: true, Val: r.Intn(nVals), MessageID: msgID, Success: r.Intn(3) > 0}})
 		case k < 20:
 			s = append(s, Op{Kind: "purge", Purge: &purgeOp{}})
+		case k >= 23: // round 7: evidence tally after re-submissions of another proof type
+			s = append(s, genEvidence(run))
 		default: // round 3: licence + registration of a light-node client (calendar arithmetic on the block time)
 			s = append(s, genLight(run, &lnNext)...)
 		}
@@ -559,6 +561,8 @@ func corpusScripts() [][]Op {
 		// seeded C08-M: one validator rotated its address on chain 1 and changed traits on chains 2 and 3
 		{{Kind: "worthy", Worthy: &worthyOp{Mixed: true, Keys: []int{1, 2, 3}, Present: []int{1}}},
 			{Kind: "worthy", Worthy: &worthyOp{Mixed: true, Keys: []int{4, 7}, Present: []int{7}}}},
+		// seeded C08-P: evidence re-submitted with the other proof type before the tally
+		corpusEvidence(),
 		// seeded C08-C: month-end / DST / leap-day registrations of light-node clients
 		corpusLight(),
 	}
@@ -673,6 +677,11 @@ func emitCases(run *emit.Run, script []Op, outs [][]stepOut, envs []twinEnv) {
 					continue
 				}
 				emitPurgeCase(run, script[:i], o, nontrivial)
+			case "evidence":
+				if k != 0 || o.Result != "ok" {
+					continue
+				}
+				emitEvidenceCase(run, op.Evidence, o, nontrivial)
 			case "lightnode":
 				// every twin's stored vesting period against the model (the model has no zone to look at)
 				emitLightCase(run, script, i, o, nontrivial)
